@@ -31,6 +31,8 @@ pub enum Unit {
 	Finalize,
 	CancelPosted,
 	CancelPending,
+	/// cancel the send that is waiting for finalisation (the one that carries the TTL in the expiring base world)
+	CancelWaiting,
 	Post,
 	EvMine,
 	EvNodeDown,
@@ -55,6 +57,9 @@ pub struct Scenario {
 	/// output on chain (never scanned); the units act on R
 	#[serde(default)]
 	restored: bool,
+	/// quick-tier schedule budget of this scenario when it differs from the default
+	#[serde(default)]
+	quick_budget: Option<u64>,
 }
 
 fn base_world(dir: &str, ttl: bool, restored: bool) {
@@ -179,6 +184,7 @@ fn run_unit(w: &World, u: &Unit, q3_tx: &Mutex<Option<String>>) -> String {
 		}
 		Unit::CancelPosted => lbl(a.cancel(None, Some(Uuid::parse_str(w.meta.extra["p_id"].as_str().unwrap()).unwrap()))),
 		Unit::CancelPending => lbl(a.cancel(None, Some(Uuid::parse_str(w.meta.extra["n_id"].as_str().unwrap()).unwrap()))),
+		Unit::CancelWaiting => lbl(a.cancel(None, Some(Uuid::parse_str(w.meta.extra["q_id"].as_str().unwrap()).unwrap()))),
 		Unit::Post => {
 			// re-post the stored transaction of Q if it has been finalised, else nothing to post
 			let id = Uuid::parse_str(w.meta.extra["q_id"].as_str().unwrap()).unwrap();
@@ -553,7 +559,7 @@ fn explore_scenario(root: &str, base: &Snapshot, sc: &Scenario, bound: Option<us
 }
 
 fn scenarios(thorough: bool) -> Vec<Scenario> {
-	let sc = |name: &str, r: Unit, ops: Vec<Vec<Unit>>, ev: Vec<Unit>| Scenario { name: name.into(), refresher: r, ops, events: ev, ttl: false, restored: false };
+	let sc = |name: &str, r: Unit, ops: Vec<Vec<Unit>>, ev: Vec<Unit>| Scenario { name: name.into(), refresher: r, ops, events: ev, ttl: false, restored: false, quick_budget: None };
 	let il = || vec![Unit::Init, Unit::Lock];
 	let mut v = vec![
 		sc("refresh+cancel-posted+mine", Unit::Refresh, vec![vec![Unit::CancelPosted]], vec![Unit::EvMine]),
@@ -565,6 +571,9 @@ fn scenarios(thorough: bool) -> Vec<Scenario> {
 		sc("scan-delete+init-lock", Unit::Scan { delete_unconfirmed: true }, vec![il()], vec![]),
 		sc("scan-delete+cancel-pending", Unit::Scan { delete_unconfirmed: true }, vec![vec![Unit::CancelPending]], vec![]),
 		Scenario { ttl: true, ..sc("refresh+finalize-expiring+mine", Unit::Refresh, vec![vec![Unit::Finalize]], vec![Unit::EvMine]) },
+		// level 2 of this one holds the schedules in which the cancel completes between the refresh's
+		// reading of its list and its TTL sweep, with the block already mined: give it room in the quick tier
+		Scenario { ttl: true, quick_budget: Some(2600), ..sc("refresh+cancel-expiring+mine", Unit::Refresh, vec![vec![Unit::CancelWaiting]], vec![Unit::EvMine]) },
 		Scenario { restored: true, ..sc("restored:scan+receive+receive", Unit::Scan { delete_unconfirmed: false }, vec![vec![Unit::Receive, Unit::Receive2]], vec![]) },
 	];
 	if thorough {
@@ -647,7 +656,7 @@ pub fn run(_args: &[String]) -> i32 {
 	let mut distinct_total = 0usize;
 	let per_wall = Duration::from_secs(std::env::var("GWV_C20_WALL").ok().and_then(|v| v.parse().ok()).unwrap_or(if thorough { 1500 } else { 60 }));
 	for sc in scs.iter() {
-		let budget: u64 = std::env::var("GWV_C20_BUDGET").ok().and_then(|v| v.parse().ok()).unwrap_or(if thorough { 40_000 } else { 700 });
+		let budget: u64 = std::env::var("GWV_C20_BUDGET").ok().and_then(|v| v.parse().ok()).unwrap_or(if thorough { 40_000 } else { sc.quick_budget.unwrap_or(700) });
 		let pins: Vec<Vec<usize>> = pinned.iter().filter(|p| p["scenario"]["name"] == json!(sc.name)).filter_map(|p| serde_json::from_value(p["schedule"].clone()).ok()).collect();
 		let pinned_only = !thorough && std::env::var("GWV_C20_SCENARIO").is_err() && !scenarios(false).iter().any(|q| q.name == sc.name);
 		let base = if sc.restored { &base_res } else if sc.ttl { &base_ttl } else { &base_plain };
